@@ -509,6 +509,47 @@ def inline_stacks(text, read, depth=0):
     return inline_stacks('\n'.join(keep[:j] + stacked + [''] + keep[j:]), read, depth + 1)
 
 
+def placement_part(rn, ev, fnd):
+    """(fourth hunt) where the generated text lands, and how a directive that cannot be honoured ends: a stack written inside a
+    sub-profile belongs to that sub-profile; `stack X` keeps the exec rules of the stacked profile -- also one whose path
+    only starts with @{exec_path}; an exec directive naming a profile without @{exec_path} must end in an error, not a panic"""
+    rn.add('st-child-src', target_text('st-child-src', ['include <abstractions/base>', '', '@{exec_path} mr,', '', '/etc/st-child-src r,']))
+    rn.add('st-ipam', target_text('st-ipam', ['include <abstractions/base>', '', '@{exec_path} mr,', '@{exec_path}-ipam rix,', '', '/etc/st-ipam r,']))
+    rn.add('st-noatt', 'abi <abi/4.0>,\n\ninclude <tunables/global>\n\nprofile st-noatt {\n  include <abstractions/base>\n\n  /etc/st-noatt r,\n\n  include if exists <local/st-noatt>\n}\n')
+    head = 'abi <abi/4.0>,\n\ninclude <tunables/global>\n\n@{exec_path} = @{bin}/host\nprofile host @{exec_path} {\n  include <abstractions/base>\n\n  @{exec_path} mr,\n\n'
+    tail = '  include if exists <local/host>\n}\n'
+    h_child = head + '  profile child {\n    include <abstractions/base>\n\n    /etc/host.child r,\n\n    #aa:stack st-child-src\n\n    include if exists <local/host_child>\n  }\n\n' + tail
+    h_ipam = head + '  #aa:stack X st-ipam\n\n' + tail
+    h_noatt = head + '  #aa:exec st-noatt\n\n' + tail
+    r_child, r_ipam, r_noatt = rn.run([h_child, h_ipam, h_noatt])
+    if r_child.get('err') or r_child.get('panic'):
+        fnd.report('placement-stack-in-sub-profile fails', 'a stack directive inside a sub-profile fails: %s' % (r_child.get('err') or r_child.get('panic')), {'text': h_child})
+    else:
+        blocks = {}
+        cur = []
+        for l in r_child['out'].split('\n'):
+            m = scan.HDR.match(l)
+            if m:
+                cur.append(m.group(3))
+            elif l.strip() == '}' and cur:
+                cur.pop()
+            elif l.strip():
+                blocks.setdefault('//'.join(cur), []).append(l.strip())
+        if '/etc/st-child-src r,' not in blocks.get('host//child', []) or '/etc/st-child-src r,' in blocks.get('host', []):
+            fnd.report('placement-stack-in-sub-profile-lands-in-parent', 'a stack directive written inside `profile child` of host puts the stacked rules into %s' % sorted(k for k, v in blocks.items() if '/etc/st-child-src r,' in v),
+                       {'text': h_child, 'out': r_child['out']})
+    if r_ipam.get('err') or r_ipam.get('panic'):
+        fnd.report('placement-stack-x-exec-path-prefix fails', '`stack X` fails: %s' % (r_ipam.get('err') or r_ipam.get('panic')), {'text': h_ipam})
+    elif not any(l.strip().endswith('-ipam rix,') for l in r_ipam['out'].split('\n')):
+        fnd.report('placement-stack-x-drops-rule-starting-with-exec_path', '`#aa:stack X` keeps exec rules but drops `@{exec_path}-ipam rix,` of the stacked profile (every line naming @{exec_path} is removed, not only the entry point)',
+                   {'text': h_ipam, 'out': r_ipam['out']})
+    if r_noatt.get('panic'):
+        fnd.report('placement-exec-of-profile-without-exec_path panics', 'an exec directive naming a profile without @{exec_path} panics: %s' % str(r_noatt['panic'])[:160], {'text': h_noatt})
+    elif not r_noatt.get('err') and '#aa:' in r_noatt.get('out', ''):
+        fnd.report('placement-exec-of-profile-without-exec_path survives', 'the directive line survives', {'text': h_noatt})
+    ev.add(transitions=3, placement_hosts=3)
+
+
 def composition_part(rn, tier, ev, fnd):
     """directives next to one another and directives brought in by a stacked profile: nothing may survive, and
     the result must equal the result for the host in which the stack directives were expanded by hand"""
@@ -614,6 +655,7 @@ def run(tier):
         exec_part(rn, base, tier, ev, fnd)
         stack_part(rn, tier, ev, fnd)
         composition_part(rn, tier, ev, fnd)
+        placement_part(rn, ev, fnd)
         rn2 = Runner(ex2, cfgx.Cfg('whonix', 3, '3.0', 'none', True))
         stack_part(rn2, tier, ev, fnd)
     finally:
